@@ -1,3 +1,4 @@
+import GitSizer.Model.ScanCheck
 import GitSizer.Driver.Common
 import GitSizer.Model.Graph
 /-! Engine `graph`: the real `sizes.Graph` driven through `RegisterBlob/Tree/Commit/Tag/Reference`
@@ -228,7 +229,7 @@ def graphEngine : Engine := fun inp obs =>
           ",".intercalate ((expGroups.map fun g => s!"{Bytes.toHex g.1}={clamp c32 g.2}").toArray.qsort (· < ·)).toList
         if grpS != expG then .viol "C07" s!"reference-group tallies {grpS}, expected {expG}"
         else if model != obs then .diff (joinTab model) "model differs from implementation (witness choice or internals)"
-        else .ok
+        else .ok (if Scan.runHypothesesb r ops then "thm" else "")
       | ["panic"] => .viol "C09,C01,C10" "the aggregator panics on a valid delivery schedule"
       | _ => .bad "observed fields"
     | _, _ => .bad "decode"
